@@ -235,6 +235,14 @@ func catalogue(p *profile, s Schema) []Edit {
 					if !c.Def.Raw {
 						add(colEdit("col-default", cn, "["+c.Type+"] default "+c.Def.V+" -> expr "+dr.V, kDefault, func(c *Col) { d := dr; c.Def = &d }))
 					}
+					if !c.Def.Raw && p.dialect != "postgres" && tn == "quote_defaults" {
+						for _, qv := range quoteDefs {
+							qv := qv
+							if qv != c.Def.V {
+								add(colEdit("col-default-quote", cn, "["+c.Type+"] default "+c.Def.V+" -> "+qv, kDefault, func(c *Col) { d := Def{V: qv}; c.Def = &d }))
+							}
+						}
+					}
 				}
 			}
 			cbits := kComment
